@@ -6,7 +6,7 @@ from . import pcheck
 from .refsem import Ref, Diverged, Unsupported
 from .searchc import mk_case, seq_of, bag_of, reference, show_ref
 
-CONE_D = ["Proofs/DiseqProofs.vo", "Proofs/EngineProofs.vo", "Proofs/SemProofs.vo", "Proofs/MonoProofs.vo", "Proofs/DenProofs.vo", "Proofs/DisunifyC.vo"]
+CONE_D = ["Proofs/DiseqProofs.vo", "Proofs/EngineProofs.vo", "Proofs/SemProofs.vo", "Proofs/MonoProofs.vo", "Proofs/DenProofs.vo", "Proofs/DisunifyC.vo", "Proofs/Complete0.vo"]
 PURE = ["eq", "eq", "neq", "neq", "cond", "fresh", "conj"]
 
 # ground universe for instance enumeration: program constants, fresh atoms, short lists
